@@ -30,12 +30,12 @@ import (
 const gasUnit = 100000000
 
 type world struct {
-	multi  bool
-	blocks [][]byte // wire bytes of preamble + setup blocks
-	cw     *chainx.World
-	hashes [nPrinc]util.Uint160
-	ids    [3]int32
-	ud     util.Uint160 // hash of the fourth instance (deployable by account 1)
+	multi             bool
+	blocks            [][]byte // wire bytes of preamble + setup blocks
+	cw                *chainx.World
+	hashes            [nPrinc]util.Uint160
+	ids               [3]int32
+	ud                util.Uint160 // hash of the fourth instance (deployable by account 1)
 	udNEF, udManifest []byte
 }
 
